@@ -67,8 +67,31 @@ def run(ctx):
         colls.append(base)
     lines = ["dedup " + "|".join(enc(p) for p in ps) for ps in colls]
     ans = ctx.driver.ask(lines) if ctx.driver else [None] * len(lines)
+    # chains general -> several specific ones -> an unrelated pattern, in every rotation: the shapes in which
+    # folding patterns together can lose an unrelated one
+    for _ in range(ctx.scale(150, 3000)):
+        g = r.choice(allp)
+        spec = [p for p in allp if g.matches(p) and p is not g]
+        other = [p for p in allp if not g.matches(p) and not p.matches(g)]
+        if len(spec) < 3 or not other:
+            continue
+        base = r.sample(spec, r.randrange(3, min(len(spec), 5) + 1)) + r.sample(other, r.randrange(1, min(len(other), 3) + 1))
+        pos = r.randrange(0, len(base) + 1)
+        base.insert(pos, g)
+        if r.random() < 0.5:
+            r.shuffle(base)
+        colls.append(base)
+    lines = ["dedup " + "|".join(enc(p) for p in ps) for ps in colls]
+    ans = ctx.driver.ask(lines) if ctx.driver else [None] * len(lines)
     for ps, a in zip(colls, ans):
-        out = deduplicate_commands(ps)
+        try:
+            out = deduplicate_commands(ps)
+            IndicationListener(tuple(ps), callback=lambda c: None)
+        except Exception as ex:
+            ctx.counterexample("listener-construction-raised", dict(patterns=[enc(p) for p in ps]), "a listener",
+                               "%s: %s" % (type(ex).__name__, ex),
+                               "building a listener from a collection of patterns raises")
+            continue
         impl = "|".join(enc(p) for p in out)
         chain = any(x is not y and x.matches(y) for x in ps for y in ps)
         ctx.case(("d", tuple(enc(p) for p in ps)), nontrivial=chain,
